@@ -119,27 +119,7 @@ func runC19(c *Ctx) {
 
 	ruleLineLimitCounting(c)
 	ruleLimiterBypass(c)
-	R.Rule("R-toolong-no-partial", "E3 edge-feasibility", "readLine hands out a line of the buffered reader only when the limiter is not in its refusing state (bufio.ReadLine returns the buffered beginning of a line and drops the error when the rest of the line is refused)", 1)
-	if f := c.A.Func("(*Conn).readLine"); f != nil {
-		n := 0
-		allInstrs(f, func(in ssa.Instruction) {
-			r, ok := in.(*ssa.Return)
-			if !ok || len(r.Results) != 2 {
-				return
-			}
-			d := describe(returnedValues(r)[0])
-			if !strings.Contains(d, "(*textproto.Reader).ReadLine(") {
-				return
-			}
-			n++
-			errNil := strings.TrimSuffix(d, "#0") + "#1 == nil"
-			r1, _ := c.ReachableUnder(in, []string{errNil, `(*lineLimitReader).exceeded(Conn.lineLimitReader) == true`})
-			r2, _ := c.ReachableUnder(in, []string{errNil, `lineLimitReader.curLineLength > lineLimitReader.LineLimit`, `lineLimitReader.LineLimit > 0`})
-			R.Ob(c.siteKey(in, "line handed out only while the limiter accepts"), c.P.InstrPos(in), !r1 || !r2,
-				"readLine returns the buffered reader's line without asking the limiter: when an over-long line arrives in several segments, bufio returns its buffered beginning with a nil error and that truncated prefix is dispatched as a command (e.g. MAIL reaches the backend) before the 500")
-		})
-		R.Ob("(*Conn).readLine/returns the text reader's line", c.P.Pos(f.Pos()), n >= 1, "no return of a textproto line found")
-	}
+	ruleNoPartialLine(c)
 
 	R.Rule("R-linelimit-restored", "E2 must-pass-through", "whoever lifts the line limit (LineLimit=0) restores it from MaxLineLength on every path before returning", 1)
 	nLift := 0
@@ -615,5 +595,33 @@ func ruleLineLimitCounting(c *Ctx) {
 			}
 		})
 		R.Ob("(*lineLimitReader).Read/refuses in the loop and on entry", c.P.Pos(f.Pos()), nErr == 2, fmt.Sprintf("%d refusal sites", nErr))
+	}
+}
+
+// ruleNoPartialLine (C19, C09): readLine never hands out the buffered beginning of a line the limiter refuses — for
+// the command loop (no truncated command is dispatched) and for the SASL exchange alike (the mechanism never gets a
+// truncated response).
+func ruleNoPartialLine(c *Ctx) {
+	R := c.R
+	R.Rule("R-toolong-no-partial", "E3 edge-feasibility", "readLine hands out a line of the buffered reader only when the limiter is not in its refusing state (bufio.ReadLine returns the buffered beginning of a line and drops the error when the rest of the line is refused)", 1)
+	if f := c.A.Func("(*Conn).readLine"); f != nil {
+		n := 0
+		allInstrs(f, func(in ssa.Instruction) {
+			r, ok := in.(*ssa.Return)
+			if !ok || len(r.Results) != 2 {
+				return
+			}
+			d := describe(returnedValues(r)[0])
+			if !strings.Contains(d, "(*textproto.Reader).ReadLine(") {
+				return
+			}
+			n++
+			errNil := strings.TrimSuffix(d, "#0") + "#1 == nil"
+			r1, _ := c.ReachableUnder(in, []string{errNil, `(*lineLimitReader).exceeded(Conn.lineLimitReader) == true`})
+			r2, _ := c.ReachableUnder(in, []string{errNil, `lineLimitReader.curLineLength > lineLimitReader.LineLimit`, `lineLimitReader.LineLimit > 0`})
+			R.Ob(c.siteKey(in, "line handed out only while the limiter accepts"), c.P.InstrPos(in), !r1 || !r2,
+				"readLine returns the buffered reader's line without asking the limiter: when an over-long line arrives in several segments, bufio returns its buffered beginning with a nil error and that truncated prefix is dispatched as a command (e.g. MAIL reaches the backend) before the 500")
+		})
+		R.Ob("(*Conn).readLine/returns the text reader's line", c.P.Pos(f.Pos()), n >= 1, "no return of a textproto line found")
 	}
 }
